@@ -92,7 +92,7 @@ PSTATES = ["none", "ready", "waiting_dwa", "disconnecting", "pre_ce"]
 ACTIONS = ["gone", "node_close", "nothing"]
 
 
-def readiness(s1: int, s2: int, victim: int, action: int, realms: int) -> bool:
+def readiness(s1: int, s2: int, victim: int, action: int, realms: int, late: bool) -> bool:
     """
     pre: 0 <= s1 < len(PSTATES) and 0 <= s2 < len(PSTATES) and 0 <= victim <= 1 and 0 <= action < len(ACTIONS) and 0 <= realms <= 2
     post: _
@@ -101,42 +101,56 @@ def readiness(s1: int, s2: int, victim: int, action: int, realms: int) -> bool:
     st = [PSTATES[hx.concretize_range(s1, 0, len(PSTATES))], PSTATES[hx.concretize_range(s2, 0, len(PSTATES))]]
     v = hx.concretize_range(victim, 0, 2)
     act = ACTIONS[hx.concretize_range(action, 0, len(ACTIONS))]
-    inputs = (s1, s2, victim, action, realms)
+    inputs = (s1, s2, victim, action, realms, late)
+    late = bool(hx.concretize(late))
     # the two peers of the application live in one realm / in two realms / in two realms the other way round
     rl = [None, [B.REALM, "partner.realm"], ["partner.realm", B.REALM]][hx.concretize_range(realms, 0, 3)]
+    early = None
     try:
-        b = B.Bench(n_peers=2, apps=((4, "auth"),), peer_realms=rl)
-        n, app = b.node, b.apps[0]
-        conns = [None, None]
-        for i in (0, 1):
-            if st[i] == "none":
-                continue
-            c, s = b.accept("10.0.1.%d" % (i + 1))
-            conns[i] = c
-            if st[i] == "pre_ce":
-                continue
-            b.inject(c, B.cer(B.PEER_HOSTS[i], hbh=10 + i, e2e=10 + i))
-            B.drain(c)
-            if st[i] == "waiting_dwa":
-                n.send_dwr(c)
+        # every input is fixed above (one solver-decided branch each): the scenario runs natively
+        with hx.untraced():
+            b = B.Bench(n_peers=2, apps=((4, "auth"),), peer_realms=rl)
+            n, app = b.node, b.apps[0]
+            late_app = None
+            conns = [None, None]
+            for i in (0, 1):
+                if st[i] == "none":
+                    continue
+                c, s = b.accept("10.0.1.%d" % (i + 1))
+                conns[i] = c
+                if st[i] == "pre_ce":
+                    continue
+                b.inject(c, B.cer(B.PEER_HOSTS[i], hbh=10 + i, e2e=10 + i))
                 B.drain(c)
-            elif st[i] == "disconnecting":
-                b.inject(c, B.dpr(B.PEER_HOSTS[i], 20 + i, 20 + i))
-                B.drain(c)
-        c = conns[v]
-        if c is not None and act != "nothing":
-            if act == "gone":
-                s = n.peer_sockets.get(c.ident)
-                s.inq.append(b"")
-                WORLD.settle(n)
-            else:
-                n.close_connection_socket(c, B.DISCONNECT_REASON_UNKNOWN)
-            conns[v] = None
-        ready_states = [cc is not None and cc.state in B.PEER_READY_STATES and cc.ident in n.connections for cc in conns]
-        anyconn = [p.connection is not None for p in b.peers]
-        obs = app.is_ready.is_set()
+                if st[i] == "waiting_dwa":
+                    n.send_dwr(c)
+                    B.drain(c)
+                elif st[i] == "disconnecting":
+                    b.inject(c, B.dpr(B.PEER_HOSTS[i], 20 + i, 20 + i))
+                    B.drain(c)
+            if late:
+                # a second application for the same peers is registered only now, with connections already established
+                late_app = B.RecApp(4, is_auth_application=True)
+                n.add_application(late_app, b.peers)
+                if any(cc is not None and cc.state in B.PEER_READY_STATES for cc in conns) and not late_app.is_ready.is_set():
+                    early = "an application registered while one of its peers has a ready connection reports not ready"
+                app = late_app
+            c = conns[v]
+            if early is None and c is not None and act != "nothing":
+                if act == "gone":
+                    s = n.peer_sockets.get(c.ident)
+                    s.inq.append(b"")
+                    WORLD.settle(n)
+                else:
+                    n.close_connection_socket(c, B.DISCONNECT_REASON_UNKNOWN)
+                conns[v] = None
+            ready_states = [cc is not None and cc.state in B.PEER_READY_STATES and cc.ident in n.connections for cc in conns]
+            anyconn = [p.connection is not None for p in b.peers]
+            obs = app.is_ready.is_set()
     except Exception as e:
         return hx.fail(inputs, "raised %s: %s" % (type(e).__name__, str(e)[:80]))
+    if early is not None:
+        return hx.check(inputs, ("not ready",), ("ready",), early)
     if any(ready_states):
         return hx.check(inputs, (obs,), (True,), "a configured peer has a ready connection (READY or awaiting a DWA) but the application reports not ready")
     if not any(anyconn):
@@ -225,7 +239,7 @@ def specs(tier, seed, carve):
     q = tier == "quick"
     rnd = random.Random(seed)
     out = [dict(id="readiness", fn="readiness", params={}, timeout=600,
-                bound="2 peers configured for one application (both in the node's realm / one of them in another realm), each in {no connection, ready, awaiting DWA, disconnecting, pre-CE}; then one of them loses its connection (peer gone / node-initiated close / nothing)")]
+                bound="2 peers configured for one application (both in the node's realm / one of them in another realm; the application registered before or after the connections were established), each in {no connection, ready, awaiting DWA, disconnecting, pre-CE}; then one of them loses its connection (peer gone / node-initiated close / nothing)")]
     out.append(dict(id="foreign_cea", fn="foreign_cea", params={}, timeout=300,
                     bound="two configured peers; the connection dialled to peer1 is answered by a CEA carrying peer2's identity, then lost (peer gone / node close)"))
     out.append(dict(id="takeover", fn="takeover", params={}, timeout=600,
